@@ -2,7 +2,8 @@ import HdVerif.Model.Json
 import HdVerif.Model.VR
 import HdVerif.Generated.T20vr
 import HdVerif.Generated.T20uid
-open Lean HdVerif HdVerif.Drv HdVerif.VR HdVerif.Gen
+import HdVerif.Model.AliasTables
+open Lean HdVerif HdVerif.Drv HdVerif.VR HdVerif.Gen HdVerif.Aliasing
 
 /-- strings travel as lists of code points -/
 def getChars (j : Json) (k : String) : Except String (List Char) := do
@@ -48,6 +49,17 @@ def handlers : List (String × Handler) := [
   ("fromUuid", fun j => do pure (exceptToJson charsToJson (fromUuid uuidRoot (← getNat j "n")))),
   ("defaultUid", fun j => do pure (exceptToJson charsToJson (defaultUid defaultPrefix (← getNat j "n")))),
   ("defaultPrefix", fun _ => do pure (okJson (Json.str defaultPrefix))),
+  ("aliasNames", fun _ => do pure (okJson (Json.arr (allEntries.map (fun e => Json.str e.name)).toArray))),
+  ("alias", fun j => do
+    let name ← getStr j "name"
+    let copy : Option Bool := match j.getObjVal? "copy" with
+      | .ok (.bool b) => some b
+      | _ => none
+    let es := allEntries.filter (·.name == name)
+    pure (okJson (Json.arr (es.map (fun e =>
+      let o := observable e copy
+      Json.mkObj [("hasCopy", Json.bool e.hasCopy), ("same", Json.bool o.1), ("fresh", Json.bool o.2.1),
+                  ("part", Json.bool o.2.2.1), ("writes0", Json.bool o.2.2.2.1), ("writesOther", Json.bool o.2.2.2.2)])).toArray))),
   ("validUID", fun j => do pure (okJson (Json.bool (decide (validUID (← getChars j "s"))))))
 ]
 
